@@ -139,6 +139,18 @@ Theorem eam_links_d8 : forall sds upa subncol cs nrow ncol ea, 0 < cs -> 0 < sub
 Proof. exact UpscaleD8.eam_links_d8_checked. Qed.
 Print Assumptions eam_links_d8.
 
+(* ... and so does every link of eam_plus (ihu_nextidx), whichever branch produced it: the next outlet pixel or pit (whose
+   cell the code tests explicitly) or the first effective-area pixel downstream (by the same geometry).  This completes
+   eam_plus_link_partial: the method links only 8-neighbours. *)
+Theorem eam_plus_links_d8 : forall sds subncol cs ncol ea, 0 < cs -> 0 < subncol -> subncol <= ncol * cs ->
+  (forall t, t < length sds -> sd sds t < length sds -> sd sds (sd sds t) < length sds) ->
+  (forall t, t < length sds -> sd sds t < length sds -> in_d8 t (sd sds t) subncol = true) ->
+  check_cross sds ea subncol cs = true ->
+  forall out idx0 s t, s < length sds -> sd sds s < length sds -> cellof subncol cs ncol s = idx0 ->
+  ihu_walk sds subncol cs ncol ea (S (length sds)) out idx0 s None = Some t -> in_d8 idx0 (cellof subncol cs ncol t) ncol = true.
+Proof. exact UpscaleD8.eam_plus_links_d8_checked. Qed.
+Print Assumptions eam_plus_links_d8.
+
 (* LOOP-FREE COARSE NETWORKS (methods eam and eam_plus).  When the upstream area is positive on the fine network and strictly
    larger at the downstream pixel (true of every accumulation of positive cell areas; a user-supplied field need not be),
    every coarse link either is a coarse pit or leads to a cell whose representative pixel (eam) / outlet pixel (eam_plus)
